@@ -313,6 +313,47 @@ mod verif_methods {
 			k += 1;
 		}
 	}
+	// (left, right) = (2, 2): window 5, 10 symbolic steps over three levels: the rescan branch runs with the minimum in the middle of the window
+	fn level() -> ValueType {
+		let k: u8 = kani::any();
+		match k % 3 { 0 => 1.0, 1 => 2.0, _ => 3.0 }
+	}
+	#[kani::proof]
+	#[kani::unwind(12)]
+	fn vk_reversal_lower_l5() {
+		let x0 = level();
+		let mut m = LowerReversalSignal::new(2, 2, &x0).unwrap();
+		let mut h = [x0; 5];
+		let mut k = 0;
+		while k < 10 {
+			let x = level();
+			h = [h[1], h[2], h[3], h[4], x];
+			let s = m.next(&x);
+			if k >= 5 {
+				let trough = h[2] <= h[0] && h[2] <= h[1] && h[2] < h[3] && h[2] < h[4];
+				assert!((s == Action::BUY_ALL) == trough);
+			}
+			k += 1;
+		}
+	}
+	#[kani::proof]
+	#[kani::unwind(12)]
+	fn vk_reversal_upper_l5() {
+		let x0 = level();
+		let mut m = UpperReversalSignal::new(2, 2, &x0).unwrap();
+		let mut h = [x0; 5];
+		let mut k = 0;
+		while k < 10 {
+			let x = level();
+			h = [h[1], h[2], h[3], h[4], x];
+			let s = m.next(&x);
+			if k >= 5 {
+				let peak = h[2] >= h[0] && h[2] >= h[1] && h[2] > h[3] && h[2] > h[4];
+				assert!((s == Action::BUY_ALL) == peak);
+			}
+			k += 1;
+		}
+	}
 	// a concrete zigzag much longer than PeriodType::MAX: every peak must still be reported (C07/C14 known finding: it is not)
 	#[kani::proof]
 	#[kani::unwind(305)]
